@@ -12,7 +12,7 @@ from ..desc import field, message, method, service, file, request, OPERATION
 from ..ref import names
 from ..report import HarnessError
 
-RULE = ('cells = response type option(9) x metadata type option(9) (relative/qualified name x {service file, imported file, '
+RULE = ('cells = response type option(10) x metadata type option(10) (relative/qualified name x {service file, imported file, '
         'non-imported file}, Empty, Struct) + unannotated Operation + rejection cells; histories = initial {done, not done} x '
         'not-done^k (k<=3) x {response, 3 error codes}; x {sync, asyncio, REST}; non-trivial = distinct (cell, client, history) '
         'that polled GetOperation at least once')
@@ -25,6 +25,8 @@ TYPE_OPTS = {
     'rel/not-imported': ('ResC', Q('ResC')), 'fq/not-imported': (f'{P}.ResC', Q('ResC')),
     # a type in the API's own operation.proto: its module name collides with api-core's `operation` module
     'rel/operation-file': ('OpFileMeta', Q('OpFileMeta')),
+    # legal message name with a lower-case initial, in a non-imported file listed *after* the service's file
+    'rel/lowercase-name-listed-later': ('vCluster', Q('vCluster')),
     'empty': ('google.protobuf.Empty', '.google.protobuf.Empty'),
     'struct': ('google.protobuf.Struct', '.google.protobuf.Struct'),
 }
@@ -51,10 +53,31 @@ def build(transport='grpc+rest'):
     fb.dependency.extend(std)
     fc.dependency.extend(std)
     fo.dependency.extend(std)
+    fz = file('acme/lro/v1/types_z.proto', P, messages=[message('vCluster', [field('nodes', 1, 'int32'), field('label', 2, 'string')])])
+    fz.dependency.extend(std)
     main.dependency.extend(std + [fb.name])
-    req = request([fb, fc, fo, main], f'transport={transport},autogen-snippets=false,service-yaml=@svc.yaml@')
+    req = request([fb, fc, fo, main, fz], f'transport={transport},autogen-snippets=false,service-yaml=@svc.yaml@')
     desc.gate(req)
     return req, {'svc.yaml': OPS_YAML.format(service=f'{P}.Lro')}, cells
+
+
+def beta_job(ctx):
+    """Same API under package acme.lro.v1beta1 and *without* a service YAML: the REST operations client must poll under the
+    API's own version prefix."""
+    from google.protobuf import text_format
+    from google.protobuf.compiler import plugin_pb2
+    req, of, cells = build('rest')
+    txt = text_format.MessageToString(req).replace('acme.lro.v1', 'acme.lro.v1beta1').replace('acme/lro/v1/', 'acme/lro/v1beta1/')
+    req2 = plugin_pb2.CodeGeneratorRequest()
+    text_format.Parse(txt, req2)
+    req2.parameter = 'transport=rest,autogen-snippets=false'
+    desc.gate(req2)
+    part = [dict(c, resp=c.get('resp', '').replace('.acme.lro.v1.', '.acme.lro.v1beta1.'), meta=c.get('meta', '').replace('.acme.lro.v1.', '.acme.lro.v1beta1.'))
+            for c in cells if c['kind'] == 'lro'][::11]
+    return dict(id='lro/rest/v1beta1-no-yaml', req=req2.SerializeToString(), probe='mc.probes.lro',
+                probe_args=dict(package='acme.lro_v1beta1', proto_package='acme.lro.v1beta1', cells=part, client='rest',
+                                max_k=2, seed=ctx.seed, poll_prefix='/v1beta1/', op_name='projects/p1/operations/op-2'),
+                _kind='drive', _client='rest-v1beta1', _cells=part)
 
 
 def rejection_jobs():
@@ -88,6 +111,8 @@ def make_jobs(ctx, only=None):
                                  _kind='drive', _client=client, _cells=part))
     if not only:
         jobs += rejection_jobs()
+    if not only or only.get('client') == 'rest-v1beta1':
+        jobs.append(beta_job(ctx))
     return jobs
 
 
@@ -132,7 +157,7 @@ def run(ctx, only=None):
                           dict(client=job['_client'], cells=[f['cell']]))
     if not only and total < 3000 and not ctx.violations:
         raise HarnessError(f'C08 exploration collapsed: {total} histories')
-    ctx.extra['bound'] = 'not-done^k with k<=3 (5 thorough); 81 type-resolution cells'
+    ctx.extra['bound'] = 'not-done^k with k<=3 (5 thorough); 100 type-resolution cells'
     ctx.assume('polling runs under a virtual clock; api-core operation futures are trusted')
 
 
